@@ -51,8 +51,22 @@ type Obs struct {
 	Widths    []int    `json:"-"`
 }
 
-// modelGuard selects the variant of the Coq model the cases are checked against.
-const modelGuard = false
+// modelGuard selects the variant of the Coq model the cases are checked against: false =
+// prepare_stmt.go with unconditional delete(Stmts, query); true = guarded deletes (the proposed
+// patch).  It is set once per run by probeGuard.
+var modelGuard = false
+
+// probeGuard replays the deterministic stale-delete schedule (ErrBadConn of a goroutine whose
+// entry was reset away deletes the newer entry): if the newer statement survives in the cache and
+// is closed by the final Close, the code has guarded deletes.  Every case of the run, including
+// the corpus witnesses of both delete paths, is then checked against that variant of the model.
+func probeGuard(e *env) bool {
+	q := Op{K: "query", Q: 0}
+	in := Input{Progs: [][]Op{{q}, {{K: "reset"}}, {q}, {{K: "close"}}},
+		Script: []Step{{0, 0}, {0, 0}, {1, 0}, {1, 0}, {1, 0}, {1, 0}, {0, 1}, {0, 0}}}
+	o := e.run(in)
+	return !o.Hang && o.Leaked == 0
+}
 
 var texts = []string{
 	"SELECT v FROM items WHERE id >= ? ORDER BY id",
@@ -591,7 +605,9 @@ func main() {
 	a := lib.ParseArgs()
 	lib.Must(os.MkdirAll(a.Out, 0o755))
 	e := setup(a.Out)
+	modelGuard = probeGuard(e)
 	out := lib.NewOut(a.Out, "C14")
+	out.Extra["model_variant"] = map[bool]string{false: "unconditional delete(Stmts, query) (prepare_stmt.go as of the pinned tree)", true: "guarded deletes (stale-delete patch present)"}[modelGuard]
 	out.PerFile = 40
 
 	add := func(kind string, in Input) Obs {
